@@ -24,6 +24,9 @@ fn pool() -> Vec<PoolKey> {
         h("one"), h("one_point_zero"), h("zero"), h("neg_zero"), h("half"), h("nan"), h("true"), h("false"), h("nil"), h("str_a"), h("str_a_concat"),
         h("t12"), h("t12_again"), h("t21"), h("t1_23"), h("t12_3"), h("class_num"), h("r12"), h("r12_again"), h("r21"), h("t_r12"), h("t_7"), h("t_733"), h("t_empty"), h("t_55"),
         u("vec"), u("map"), u("tuple_with_vec"), u("lambda"), u("instance"),
+        // unhashable values from which the map that is being operated on can be reached (reporting them
+        // means printing them, which means looking into the map)
+        u("the_map_itself"), u("vec_holding_the_map"), u("tuple_holding_a_vec_holding_the_map"),
     ]
 }
 
@@ -59,6 +62,10 @@ fn key_expr(name: &str) -> Expr {
         "tuple_with_vec" => Expr::TupleLit(vec![num(1.0), Expr::VecLit(vec![num(2.0)])]),
         "lambda" => Expr::Paren(Box::new(lambda_expr(&[], num(1.0)))),
         "instance" => invoke(var("K"), "new", vec![]),
+        // (the map every operation of the search works on is the variable `m`)
+        "the_map_itself" => var("m"),
+        "vec_holding_the_map" => Expr::VecLit(vec![var("m")]),
+        "tuple_holding_a_vec_holding_the_map" => Expr::TupleLit(vec![num(0.0), Expr::VecLit(vec![var("m")])]),
         _ => unreachable!(),
     }
 }
@@ -368,7 +375,7 @@ pub fn run(ctx: &Ctx) -> Report {
         }
     }
     // the *same* key object used repeatedly (a rejected key must stay rejected, and stay intact)
-    for k in keys.iter() {
+    for k in keys.iter().filter(|k| !k.name.contains("the_map")) {
         let mut prog = vec![class_stmt("K", None, Some("new"), vec![]), var_stmt("key", key_expr(k.name)), var_stmt("m", Expr::MapLit(vec![(num(7.0), s("seven"))]))];
         let uses: Vec<Expr> = vec![
             invoke(var("m"), "insert", vec![var("key"), s("first")]),
@@ -449,7 +456,7 @@ pub fn run(ctx: &Ctx) -> Report {
         }
     }
     // unhashable keys in a literal
-    for k in keys.iter().filter(|k| !k.hashable) {
+    for k in keys.iter().filter(|k| !k.hashable && !k.name.contains("the_map")) {
         cases.push(Case::new(
             "unhashable_key_in_literal",
             vec![class_stmt("K", None, Some("new"), vec![]), probe(Expr::MapLit(vec![(num(1.0), num(2.0)), (key_expr(k.name), num(3.0))])), print_stmt(s("after"))],
@@ -463,7 +470,9 @@ pub fn run(ctx: &Ctx) -> Report {
         attribute: &|_c, _m, _o, _mm| None,
         nontrivial: &|_c, m| {
             if !matches!(m.outcome, crate::meval::Outcome::Ok) {
-                ended_early.fetch_add(1, std::sync::atomic::Ordering::Relaxed);
+                if ended_early.fetch_add(1, std::sync::atomic::Ordering::Relaxed) == 0 {
+                    eprintln!("C12: a batch program of family {} ends early in the model: {:?} after {} lines", _c.family, m.outcome, m.out.len());
+                }
             }
             m.out.len() > 30
         },
@@ -476,7 +485,7 @@ pub fn run(ctx: &Ctx) -> Report {
     mcheck::fill_report(
         &mut report,
         &stats,
-        "breadth-first search over HashMap states (canonical = sorted reference contents) from the empty map and from 14 literals, over insert/remove with every key of a pool holding equal-but-separately-built keys (1 and 1.0, 0 and -0, two builds of (1,2), of \"a\" and of 1..2 - with ten (seventy in the thorough tier) other ranges built before every operation and every dump, so that the two builds are two objects -, a tuple holding a range, nested tuples, two pairs of tuples of different lengths whose hashes collide), NaN, a class, and five unhashable values, plus clear; every transition leaving every state is executed on the real HashMap from a rebuilt copy and followed by a full dump (len; has_key/get through every hashable pool key; keys/values/items enumerate each entry once; a map rebuilt from items is == the original). One program per state. Plus `values_are_stored_as_given`: nil as a value (into an empty map, after a removal, after clear, over an old value, in a literal) and a key written again with a value that equals the old one but is another object (vec, map, tuple holding a vec, the zero of the other sign, 1 / 1.0), under six kinds of key.",
+        "breadth-first search over HashMap states (canonical = sorted reference contents) from the empty map and from 14 literals, over insert/remove with every key of a pool holding equal-but-separately-built keys (1 and 1.0, 0 and -0, two builds of (1,2), of \"a\" and of 1..2 - with ten (seventy in the thorough tier) other ranges built before every operation and every dump, so that the two builds are two objects -, a tuple holding a range, nested tuples, two pairs of tuples of different lengths whose hashes collide), NaN, a class, and eight unhashable values (three of them reach the map itself: the map, a vec holding it, a tuple holding such a vec), plus clear; every transition leaving every state is executed on the real HashMap from a rebuilt copy and followed by a full dump (len; has_key/get through every hashable pool key; keys/values/items enumerate each entry once; a map rebuilt from items is == the original). One program per state. Plus `values_are_stored_as_given`: nil as a value (into an empty map, after a removal, after clear, over an old value, in a literal) and a key written again with a value that equals the old one but is another object (vec, map, tuple holding a vec, the zero of the other sign, 1 / 1.0), under six kinds of key.",
         json!({"max_live_entries": max_live, "depth": max_depth, "pool_keys": keys.len()}),
     );
     report.cov("states", json!(states));
